@@ -1,5 +1,6 @@
 import EudoxiaModel.Model.Exec
 import EudoxiaModel.Model.Dag
+import Driver.Json
 /-! Line-protocol driver: one command per input line, one JSON observation per output line. -/
 open Eudoxia
 
@@ -81,7 +82,21 @@ def step (d : DS) (line : String) : DS × String :=
     | .error (e, none) => ({ d with pendSusp := [], pendAsg := [], dead := true }, "{\"ok\":false,\"err\":" ++ jstr e.name ++ ",\"state\":null}")
     | .error (e, some w') => ({ d with w := w', pendSusp := [], pendAsg := [] }, "{\"ok\":false,\"err\":" ++ jstr e.name ++ ",\"state\":" ++ showWorld w' ++ "}")
     | .ok (w', res) => ({ d with w := w', pendSusp := [], pendAsg := [] }, "{\"ok\":true,\"state\":" ++ showWorld w' ++ ",\"res\":" ++ showRes res ++ "}")
+  | ["trans", pid, oid, t] =>
+    let r := gid d.w pid.toNat! oid.toNat!
+    let tgt := OpState.all.getD t.toNat! .pending
+    (match d.w.store.transition r tgt with
+     | .error e => (d, "{\"ok\":false,\"err\":" ++ jstr e.name ++ ",\"st\":" ++ showStates d.w ++ ",\"cnt\":" ++ showCounts d.w ++ "}")
+     | .ok s' => let w' := { d.w with store := s' }
+                 ({ d with w := w' }, "{\"ok\":true,\"st\":" ++ showStates w' ++ ",\"cnt\":" ++ showCounts w' ++ "}"))
   | ["reset"] => ({}, "{\"ok\":true}")
+  | "check" :: which :: rest =>
+    let text := " ".intercalate rest
+    match Lean.Json.parse text >>= DJ.etrace with
+    | .error e => (d, "{\"ok\":false,\"err\":\"parse\",\"detail\":" ++ (Lean.Json.str e).compress ++ "}")
+    | .ok t =>
+      let fails := checkETrace which t
+      (d, "{\"ok\":true,\"holds\":" ++ jb fails.isEmpty ++ ",\"fails\":" ++ jarr (fails.map jstr) ++ "}")
   | _ => (d, "{\"ok\":false,\"err\":\"bad-op\"}")
 
 partial def loop (h : IO.FS.Stream) (out : IO.FS.Stream) (d : DS) : IO Unit := do
